@@ -5,6 +5,7 @@ use scnr_verif_harness::astser::{self, RefCache, RefTables};
 use scnr_verif_harness::cfggen::{self, ModeSpec, PatSpec, ProgCfg};
 use scnr_verif_harness::buildgen;
 use scnr_verif_harness::classgen;
+use scnr_verif_harness::jsonser;
 use scnr_verif_harness::world::{self, CompIds, RealWorld, WOp};
 use scnr_verif_harness::proto::{self, TableCache};
 use scnr_verif_harness::real::{self, History, Profile};
@@ -1240,6 +1241,131 @@ fn case_c15(seed: u64, idx: usize, out: &mut String, st: &mut Stats) {
     }
 }
 
+const ODD_STRINGS: [&str; 8] = ["\"", "\\\\", "\\n", "a\"b", "\u{1}", "ü€𝄞", "\\u{22}", "\\x5c"];
+
+/// C16: Serialize/Deserialize of the real types against the JSON tree model.
+fn case_c16(seed: u64, idx: usize, cache: &TableCache, out: &mut String, st: &mut Stats) {
+    let mut r = Rng::derive(seed, idx as u64);
+    let pc = ProgCfg { max_modes: 3, max_patterns: 4, lookahead: 40, nullable: false, transitions: true, big_tids: true };
+    let mut spec = cfggen::gen_program(&mut r, &pc);
+    // strings with quotes, backslashes, control and non-ASCII characters
+    for m in spec.iter_mut() {
+        if r.chance(40) {
+            let extra: &str = *r.pick(&["\"Q\"", "back\\slash", "tab\there", "näme", "\u{7f}", ""]);
+            m.name.push_str(extra);
+        }
+        if r.chance(30) {
+            m.transitions.clear();
+        }
+        for p in m.patterns.iter_mut() {
+            if r.chance(30) {
+                let extra: &str = *r.pick(&ODD_STRINGS);
+                p.pattern.push_str(extra);
+            }
+        }
+    }
+    st.cases += 1;
+    let modes = cfggen::to_modes(&spec);
+    let _ = writeln!(out, "case {}\nexpect case {}\n# {}", idx, idx, describe(&spec).replace('\n', "\\n"));
+    // Serialize
+    let mut cfg = String::new();
+    jsonser::ser_cfg(&spec, &mut cfg);
+    let _ = writeln!(out, "jser{}", cfg);
+    match serde_json::to_value(&modes) {
+        Ok(v) => {
+            let mut t = String::new();
+            jsonser::ser_value(&v, &mut t);
+            let _ = writeln!(out, "expect json{}", t);
+        }
+        Err(_) => out.push_str("expect json error\n"),
+    }
+    // Deserialize: the hand-built README-layout tree, then mutated trees
+    let mut tree = jsonser::tree_of(&spec);
+    for k in 0..4 {
+        if k > 0 {
+            let what = jsonser::mutate_tree(&mut r, &mut tree);
+            st.count(&format!("mutation_{}", what), 1);
+        }
+        let mut t = String::new();
+        jsonser::ser_value(&tree, &mut t);
+        let _ = writeln!(out, "jde{}", t);
+        match serde_json::from_value::<Vec<scnr::ScannerMode>>(tree.clone()) {
+            Ok(ms) => {
+                st.count("deserialize_ok", 1);
+                let mut t2 = String::new();
+                jsonser::ser_value(&serde_json::to_value(&ms).unwrap(), &mut t2);
+                let _ = writeln!(out, "expect jde{}", t2);
+            }
+            Err(_) => {
+                st.count("deserialize_err", 1);
+                out.push_str("expect jde err\n");
+            }
+        }
+    }
+    // implementation-only: text round trip and behaviour of the rebuilt scanner
+    let text = serde_json::to_string(&modes).unwrap();
+    let back: Result<Vec<scnr::ScannerMode>, _> = serde_json::from_str(&text);
+    let mut verdict = String::from("oracle ok");
+    match back {
+        Err(e) => verdict = format!("oracle FAIL from_str(to_string(modes)) fails: {}", e),
+        Ok(b) => {
+            if b != modes {
+                verdict = "oracle FAIL from_str(to_string(modes)) differs from modes".to_string();
+            } else {
+                let s1 = ScannerBuilder::new().add_scanner_modes(&modes).build_uncached();
+                let s2 = ScannerBuilder::new().add_scanner_modes(&b).build_uncached();
+                match (s1, s2) {
+                    (Ok(s1), Ok(s2)) => {
+                        let d = s1.verif_dump();
+                        let tb = cache.tables(&s1, &d);
+                        for _ in 0..3 {
+                            let inp = cfggen::gen_input(&mut r, &d, &tb, 6);
+                            if tokens_of(&s1, &inp) != tokens_of(&s2, &inp) {
+                                verdict = format!("oracle FAIL the scanner rebuilt from the round-tripped configuration tokenizes {:?} differently", inp);
+                            }
+                        }
+                    }
+                    (Err(_), Err(_)) => {}
+                    _ => verdict = "oracle FAIL only one of original and round-tripped configuration builds".to_string(),
+                }
+            }
+        }
+    }
+    let _ = writeln!(out, "{}\nexpect oracle", verdict.replace('\n', " "));
+    // matches
+    let (t, a, b) = (r.below(100000), r.below(5000), r.below(5000) + 5000);
+    let m = scnr::Match::new(t, scnr::Span::new(a, b));
+    let _ = writeln!(out, "jmatch {} {} {}", t, a, b);
+    let mut tm = String::new();
+    jsonser::ser_value(&serde_json::to_value(m).unwrap(), &mut tm);
+    let _ = writeln!(out, "expect json{}", tm);
+    let back: scnr::Match = serde_json::from_str(&serde_json::to_string(&m).unwrap()).unwrap();
+    let _ = writeln!(out, "{}\nexpect oracle", if back == m { "oracle ok" } else { "oracle FAIL Match does not round-trip" });
+    let pos = scnr::Position::new(1 + r.below(50), 1 + r.below(80));
+    let mut tp = String::new();
+    jsonser::ser_value(&serde_json::to_value(pos).unwrap(), &mut tp);
+    let _ = writeln!(out, "jposition {} {}\nexpect json{}", pos.line, pos.column, tp);
+    // MatchExt through the iterator API
+    if let Ok(sc) = ScannerBuilder::new().add_scanner_modes(&modes).build_uncached() {
+        use scnr::MatchExtIterator;
+        let d = sc.verif_dump();
+        let tb = cache.tables(&sc, &d);
+        let inp = cfggen::gen_input(&mut r, &d, &tb, 6);
+        if let Some(me) = sc.find_iter(&inp).with_positions().next() {
+            let mut te = String::new();
+            jsonser::ser_value(&serde_json::to_value(me).unwrap(), &mut te);
+            let _ = writeln!(out, "jmatchext {} {} {} {} {} {} {}\nexpect json{}", me.token_type(), me.start(), me.end(),
+                me.start_position().line, me.start_position().column, me.end_position().line, me.end_position().column, te);
+            let back: scnr::MatchExt = serde_json::from_str(&serde_json::to_string(&me).unwrap()).unwrap();
+            let _ = writeln!(out, "{}\nexpect oracle", if back == me { "oracle ok" } else { "oracle FAIL MatchExt does not round-trip" });
+            st.count("matchext_checked", 1);
+        }
+    }
+    if st.samples.len() < 2 {
+        st.samples.push(text);
+    }
+}
+
 fn main() {
     // silence panic messages of caught panics
     std::panic::set_hook(Box::new(|_| {}));
@@ -1292,6 +1418,7 @@ fn main() {
                         "C12" => case_c12(seed, idx, &cache, &mut out, &mut st),
                         "C13" => case_c13(seed, idx, &cache, &mut out, &mut st),
                         "C15" => case_c15(seed, idx, &mut out, &mut st),
+                        "C16" => case_c16(seed, idx, &cache, &mut out, &mut st),
                         _ => case_iter(seed, idx, &suite, &cache, &mut out, &mut st),
                     }
                     idx += threads;
